@@ -129,10 +129,11 @@ pub fn gen_timed(t: &mut Tape, want_window: bool) -> Scenario {
         let mut body = vec![];
         let mut cur = 0usize;
         for _ in 0..1 + g.t.draw(3) {
-            let op = match g.t.draw(5) {
+            let op = match g.t.draw(6) {
                 0 | 1 => UnOp::Shuffle,
                 2 => UnOp::Gb(GbForm::KeyedMap, AggFn::Sum),
                 3 => UnOp::Map(MapFn::Add(1)),
+                4 => UnOp::Reorder,
                 _ => UnOp::Batch(gen_bm(g.t, true)),
             };
             body.push(Step::Un(cur, op));
@@ -330,14 +331,23 @@ pub fn gen_cwin(t: &mut Tape) -> Scenario {
         // inside a replay body: repeated iterations over the same input
         let st2 = g.unlimited(st);
         let a = g.attrs[st2].take().unwrap();
+        // replay presents the same input every round, iterate feeds the windows back: different
+        // per-key lengths (and leftovers) in every round
+        let iterate = g.t.draw(2) == 1;
+        let mut body = vec![Step::Un(0, win)];
+        let mut body_out = 1;
+        if iterate {
+            body.push(Step::Un(1, UnOp::Shuffle));
+            body_out = 2;
+        }
         let spec = LoopSpec {
-            iterate: false,
+            iterate,
             rounds: 1 + g.t.draw(3) as usize,
             stop_mod: 0,
             stop_rem: 0,
             agg: AggFn::Count,
-            body: vec![Step::Un(0, win)],
-            body_out: 1,
+            body,
+            body_out,
             use_state: false,
             cond_sleep_us: 0,
         };
@@ -348,6 +358,14 @@ pub fn gen_cwin(t: &mut Tape) -> Scenario {
             len: 1,
             keys: 1,
         }));
+        if iterate {
+            g.attrs.push(Some(Attr {
+                repl: Repl::Unlimited,
+                depth: a.depth,
+                len: a.len,
+                keys: a.keys,
+            }));
+        }
     } else {
         g.un(st, win);
     }
